@@ -50,7 +50,7 @@ Fixpoint le_dec (l : list byte) : N :=
   | b :: r => b + 256 * le_dec r
   end.
 
-Definition prec := (N * N)%type.                     (* (_offset, _size) *)
+Notation prec := (N * N)%type (only parsing).        (* (_offset, _size) *)
 Definition enc_iprec (seq : N) (p : prec) : list byte :=
   le_enc 4 seq ++ le_enc 8 (fst p) ++ le_enc 4 (snd p).
 Definition dec_iprec (r : list byte) : N * prec :=
@@ -184,28 +184,11 @@ Fixpoint file_run (st : fstate) (ops : list op) : option (list out) :=
 Definition file_outputs (ops : list op) : option (list out) := file_run file_empty ops.
 
 (* ---- hypotheses of the refinement theorems, as executable predicates on the operations ---- *)
-Definition LIM : N := 2147483648.           (* 2^31 *)
+(* numbers below 2^31, records of at most MaxMsgLen bytes, fewer than 2^31 operations *)
 Definition op_wf (o : op) : bool :=
-  match o with
-  | OPut seq b => (seq <? LIM) && (len b <=? MAX_MSG_LENGTH)
-  | OGet seq => seq <? LIM
-  | OCtlPut s t => (s <? LIM) && (t <? LIM)
-  | ONearest req last => (req <? LIM) && (last <? LIM)
-  | ORange from to abort => (from <? LIM) && (to <? LIM)
-  | _ => true
-  end.
-(* all numbers below 2^31, records of at most MaxMsgLen bytes, fewer than 2^31 operations *)
+  op_bounded o && match o with OPut _ b => len b <=? MAX_MSG_LENGTH | _ => true end.
 Definition ops_wf (ops : list op) : bool :=
   forallb op_wf ops && (N.of_nat (length ops) <? LIM).
-
-(* searches and range retrievals start at a sequence number >= 1 *)
-Definition op_zero_free (o : op) : bool :=
-  match o with
-  | ONearest req _ => 1 <=? req
-  | ORange from _ _ => 1 <=? from
-  | _ => true
-  end.
-Definition zero_free (ops : list op) : bool := forallb op_zero_free ops.
 
 (* What occupies the first 16 bytes of the index file: nothing yet, a control record, a message
    record, or a control record written over a message record (the overwritten message's index
